@@ -44,6 +44,34 @@ def real_lookup(regs, req):
     return None if got is None else classes.index(got)
 
 
+def real_history(ops):
+    """register / lookup / read ops against ONE TreeBuilderRegistry; returns one result per op (lookup: index or None)"""
+    from bs4.builder import TreeBuilderRegistry, TreeBuilder
+    reg = TreeBuilderRegistry()
+    classes, out = [], []
+    for op in ops:
+        if op[0] == "register":
+            cls = type(f"B{len(classes)}", (TreeBuilder,), {"features": [f"f{f}" for f in op[1]]})
+            classes.append(cls)
+            reg.register(cls)
+            out.append(None)
+        elif op[0] == "lookup":
+            got = reg.lookup(*[f"f{f}" for f in op[1]])
+            out.append(None if got is None else classes.index(got))
+        else:
+            f = f"f{op[2]}"
+            if op[1] == "subscript":
+                _ = reg.builders_for_feature[f]
+            elif op[1] == "get":
+                _ = reg.builders_for_feature.get(f)
+            elif op[1] == "in":
+                _ = f in reg.builders_for_feature
+            else:
+                _ = list(reg.builders)
+            out.append(None)
+    return out
+
+
 def fmt_regs(regs):
     if not regs:
         return "-"
@@ -163,6 +191,44 @@ def run(ctx: Ctx):
             lines.append(f"c20 lookup {fmt_regs(regs)} {fmt_list(req)}")
             impl.append(show(got))
             cases.append((regs, req))
+    # interleaved histories on ONE registry object: register / lookup / plain reads of the public tables in any order. A lookup is an
+    # observation: its answer is the documented one for the registrations made SO FAR, whatever was asked or read before
+    for i in range(ctx.n(2500, 40000)):
+        r = ctx.rng("interleaved", i)
+        ops = []
+        for _ in range(r.randint(2, 10)):
+            k = r.random()
+            if k < 0.35:
+                ops.append(("register", r.choice(subsets)))
+            elif k < 0.8:
+                ops.append(("lookup", tuple(r.choice((0, 1, 2, 9)) for _ in range(r.randint(0, 3)))))
+            else:
+                ops.append(("read", r.choice(("subscript", "get", "in", "builders")), r.choice((0, 1, 2, 9))))
+        if r.random() < 0.5:
+            # ask the same question before and after a registration
+            q = tuple(r.choice((0, 1, 2)) for _ in range(r.randint(1, 3)))
+            ops = [("lookup", q)] + ops + [("register", r.choice(subsets)), ("lookup", q)]
+        res = real_history(ops)
+        regs = []
+        bad = None
+        for j, (op, out) in enumerate(zip(ops, res)):
+            if op[0] == "register":
+                regs.append(op[1])
+            elif op[0] == "lookup":
+                want = spec_lookup(regs, op[1])
+                ctx.count("interleaved:lookups")
+                lines.append(f"c20 lookup {fmt_regs(regs)} {fmt_list(op[1])}")
+                impl.append(show(out))
+                cases.append((tuple(regs), op[1]))
+                if out != want and bad is None:
+                    bad = (j, want, out)
+        nontriv = sum(1 for o in ops if o[0] == "register") >= 2 and any(o[0] == "lookup" for o in ops[1:])
+        ctx.case(("I", tuple(ops)) if nontriv else None)
+        if bad is not None:
+            j, want, out = bad
+            ctx.violation(f"history on one registry: lookup at step {j} differs from the documented answer for the registrations made so far",
+                          case={"op": "history", "ops": [list(o) for o in ops], "step": j}, expected=show(want), observed=show(out),
+                          stream="interleaved")
     # the same requests through the Lean code-mirror and the Lean spec
     drv = Driver()
     rep = drv.ask(lines)
@@ -223,6 +289,21 @@ def replay(path):
         want = spec_lookup([tuple(x) for x in c["registrations"]], tuple(c["request"]))
         print("implementation:", show(got), " property demands:", show(want))
         return 0 if got == want else 1
+    if c.get("op") == "history":
+        ops = [tuple(tuple(x) if isinstance(x, list) else x for x in o) for o in c["ops"]]
+        res = real_history(ops)
+        regs, rc = [], 0
+        for j, (op, out) in enumerate(zip(ops, res)):
+            if op[0] == "register":
+                regs.append(op[1]); print(j, "register", op[1])
+            elif op[0] == "lookup":
+                want = spec_lookup(regs, op[1])
+                print(j, "lookup", op[1], "->", show(out), " property demands:", show(want))
+                if out != want:
+                    rc = 1
+            else:
+                print(j, "read", op[1:], "(no effect on later answers)")
+        return rc
     if c.get("op") == "construct":
         got = constructor_case([tuple(x) for x in c["registrations"]], tuple(c["builder"]), tuple(c["features"]) if c["features"][0] != "list" else ("list", tuple(c["features"][1])), c["kwargs"])
         print("implementation:", got, " property demands:", v.get("expected"))
